@@ -1,6 +1,8 @@
 """C10 - agnostic encoding depends only on staff position and accidental (pitch grid vs staff model; document diff akern vs kern)."""
 from __future__ import annotations
 
+import re
+
 from collections import Counter
 
 from ..common import Ctx
@@ -86,9 +88,9 @@ def install_pair_recorder():
         return
     _orig_cb = TZ.pitch_to_gkern_string
 
-    def rec(pitch, clef):
+    def rec(pitch, clef, *a, **k):
         _pairs[type(clef).__name__] += 1
-        return _orig_cb(pitch, clef)
+        return _orig_cb(pitch, clef, *a, **k)
     TZ.pitch_to_gkern_string = rec
 
 
@@ -222,10 +224,79 @@ def doc_level(ctx: Ctx, cs):
         j = next((i for i, (a_, b_) in enumerate(zip(gl, ya.split('\n'))) if a_ != b_), 0)
         ctx.violation('agnostic-selection-spelling', f'akern with include = all categories except NOTE/NOTE_REST/CORE '
                       f'{"raised " + repr(errl) if errl is not None else "differs from the unfiltered akern export at line " + str(j + 1) + ": " + repr(gl[j] if j < len(gl) else None) + " vs " + repr(ya.split(chr(10))[j])}', case)
+    transposed_level(ctx, kp, doc, x, ag, cx, case, cs)
     if rich and 'clef_change' in doc.tags:
         ctx.nontriv(x)
     if len(ctx.samples) < 8 and len(x) < 400 and rich:
         ctx.sample({'case_seed': cs, 'text': x, 'akern': ya})
+
+
+RE_KNOTE = re.compile(r'^([^a-gA-Gr]*)(([a-gA-G])\3*)(.*)$', re.S)
+
+
+def transposed_level(ctx, kp, doc, x, ag, cx, case, cs):
+    """The same relation on a document produced by to_transposed (its pitch sub-tokens are written by the transposer, not by the
+    parser): the agnostic export differs from the kern export of the SAME document only in the pitch letters of notes."""
+    import random
+    rng = random.Random(cs ^ 0xC10)
+    d, e, exc = kpx.loads(x)       # a fresh import: to_transposed is known to touch its source (C15)
+    if exc is not None or e:
+        return
+    name = rng.choice(['M2', 'm2', 'M3', 'm3', 'P4', 'P5', 'A4', 'm6', 'M7', 'A1', 'd5'])
+    direction = rng.choice(['up', 'down'])
+    try:
+        t = d.to_transposed(name, direction)
+    except Exception as ex:  # noqa   (C15 decides when a transposition may be refused)
+        ctx.mon(f'transposition_refused:{type(ex).__name__}')
+        return
+    yk, errk = kpx.dumps(t)
+    ya, erra = kpx.dumps(t, encoding=kpx.Enc.agnosticKern)
+    ctx.ev()
+    ctx.mon('transposed_documents')
+    c2 = dict(case, transposed=f'{name} {direction}')
+    if errk is not None:
+        ctx.mon('transposed_kern_export_raised (C15 decides)')
+        return
+    if erra is not None:
+        ctx.violation('agnostic-export-raises', f'agnostic export of the document transposed {name} {direction} raised '
+                      f'{type(erra).__name__}: {erra}', c2)
+        return
+    gk, ga = kpx.grid(yk), kpx.grid(ya)
+    if len(gk) != len(ga) or len(gk) != len(ag) or any(len(a) != len(b) or len(a) != len(c_) for a, b, c_ in zip(gk, ga, ag)):
+        if len(gk) != len(ga) or any(len(a) != len(b) for a, b in zip(gk, ga)):
+            ctx.violation('agnostic-grid-shape', f'transposed {name} {direction}: akern export has {len(ga)} lines, kern export {len(gk)}', c2)
+        else:
+            ctx.mon('transposed grid not aligned with the source grid (C15 decides)')
+        return
+    for krow, arow, srow in zip(gk, ga, ag):
+        for ok_, oa, c in zip(krow, arow, srow):
+            if c.kind == 'header':
+                continue
+            if c.kind not in ('note', 'chord'):
+                if ok_ != oa:
+                    ctx.violation('non-note-cell-changed', f'transposed {name} {direction}: {c.kind} cell {ok_!r} is {oa!r} in akern', c2)
+                continue
+            clef = cx[(c.line, c.col)]['clef']
+            cl = kp.ClefFactory.create_clef(clef)
+            bl = cl.bottom_line()
+            kparts, aparts = ok_.split(' '), oa.split(' ')
+            if len(kparts) != len(aparts):
+                ctx.violation('chord-notes', f'transposed {name} {direction}: {ok_!r} -> {oa!r}: note count differs', c2)
+                continue
+            for kp_, ap in zip(kparts, aparts):
+                m = RE_KNOTE.match(kp_)
+                if m is None or 'r' in m.group(1):
+                    if ap != kp_:
+                        ctx.violation('rest-changed', f'transposed {name} {direction}: {kp_!r} is {ap!r} in akern', c2)
+                    continue
+                letters = m.group(2)
+                octave = 3 + len(letters) if letters[0].islower() else 4 - len(letters)
+                agl = S.agnostic(letters[0].upper(), 0, octave, (bl.name[0], bl.octave))
+                exp = m.group(1) + agl + m.group(4)
+                ctx.mon('transposed_notes_compared')
+                if ap != exp:
+                    ctx.violation('agnostic-note', f'transposed {name} {direction}: note {kp_!r} under {clef} is {ap!r} in akern, expected '
+                                  f'{exp!r} (only the pitch letters change)', c2)
 
 
 def run(ctx: Ctx):
